@@ -18,7 +18,7 @@ RULE = ("texts of grammar G (DESIGN section 3): (1) model programs of vf/gen.py 
         "tests/test_compiler.py under the same mutations; (3, thorough tier) a coverage-guided atheris campaign whose bytes select a seed "
         "text and a mutation sequence; (4) a statement grid, enumerated: every directive, 20 mnemonics and 29 other statement heads x 100 "
         "operand shapes (single operands in four contexts: plain, .repeat body, .repeat with an address-dependent count, after .link; "
-        "operand pairs with ', ' and ' ' between them - all in the thorough tier, a seed-chosen eighth in the quick tier). Every text is assembled under FilterHandler(BareHandler) and FilterHandler(GraphicalHandler); the "
+        "operand pairs with ', ' and ' ' between them - all in the thorough tier, a seed-chosen eighth in the quick tier). Every text is assembled under FilterHandler(BareHandler) and FilterHandler(GraphicalHandler), failing texts once more with every warning identifier switched off; the "
         "outcome must be success or failure with >= 1 error diagnostic. Violations: any other exception (what main_cli prints as "
         "'unexpected internal compiler error'), failure without an error diagnostic, and a run that exceeds 60 s in a fresh "
         "subprocess after exceeding the 5 s in-process watchdog (runs classified slow-but-finite are counted as inconclusive). "
@@ -136,7 +136,22 @@ def probe(files, charset="bk", timeout=5.0):
         with contextlib.redirect_stdout(sink), contextlib.redirect_stderr(sink):
             out = driver.assemble(files, charset=charset, timeout=timeout, make_handler=lambda rec: p.reports.FilterHandler(Tee(rec, real), {}))
         outs.append(out)
+    if outs[0].kind == "error":
+        # the same failing text with every warning switched off ('-Wno-<each identifier>'): it must still say why it fails
+        sink = io.StringIO()
+        with contextlib.redirect_stdout(sink), contextlib.redirect_stderr(sink):
+            out = driver.assemble(files, charset=charset, timeout=timeout, make_handler=lambda rec: p.reports.FilterHandler(Tee(rec, p.reports.BareHandler()), AllOff()))
+        outs.append(out)
     return outs
+
+
+class AllOff(dict):
+    """warning control that answers 'disabled' for every identifier"""
+    def __contains__(self, key):
+        return True
+
+    def __getitem__(self, key):
+        return False
 
 
 PADS = re.compile(r"\.(even|odd|align)\b", re.I)
@@ -170,7 +185,7 @@ def executed_pads(text):
 
 def classify(files, outs, charset="bk"):
     """-> (None | (sig, msg), class label)"""
-    for out, hk in zip(outs, ("bare", "graphical")):
+    for out, hk in zip(outs, ("bare", "graphical", "bare (every warning switched off)")):
         if out.kind == "crash":
             if out.exc[0] == "MemoryError":
                 return None, "inconclusive-memory"
@@ -195,6 +210,8 @@ def classify(files, outs, charset="bk"):
             _hang_confirmed[0] = 1
             return ("hang", "no result within 60 s in a fresh process"), "hang"
         return None, "inconclusive-slow"
+    if len(outs) > 2 and outs[2].kind not in ("error", "timeout"):
+        return ("warnings-off-changes-outcome", f"fails under the default selection but ends with {outs[2].kind} when every warning is switched off"), "handler-dependent"
     if outs[0].kind != outs[1].kind:
         return ("handler-dependent", f"bare handler: {outs[0].kind}, graphical handler: {outs[1].kind}"), "handler-dependent"
     return None, outs[0].kind
